@@ -1,11 +1,13 @@
 """C06 — see DESIGN.md §6; S-machine check (model scopes/Machine.v, monitors in scommon.py)."""
+import chaintie
 import scommon
 
-DRIVERS = [("smachine", "Machine")]
+DRIVERS = [("smachine", "Machine"), ("chain", "ChainCodec")]
 
 
 def check(tier: str) -> int:
-    return scommon.scheck("C06", tier)
+    # tie T first (translator + cross-check of the translated walks against the real code), then the S-machine check
+    return chaintie.check("C06", tier, scommon.scheck)
 
 
 def replay(path: str) -> int:
